@@ -23,7 +23,7 @@ RULE = ("cases = generated lists of 1..4 tables (int/float/text columns, 1..200 
         "on/off) read and compared with an independent tokenizer; non-trivial = at least 2 rows and 2 columns in some block "
         "and (a text column, a float needing rounding, more than one block or a layout decoration present); distinct by digest "
         "of block names, shapes, column kinds, layout flags and first row")
-ASSUMPTIONS = ["numeric token value = Python float(token); pandas' parser may differ by <= 4 ulp (tolerated)",
+ASSUMPTIONS = ["numeric token value = Python float(token) within 1e-12 relative (pandas.to_numeric uses a fast decimal parser that is not correctly rounded for 17-digit mantissas; the property does not ask for ulp-exact parsing)",
                "numeric tolerance after write: 0.5e-6 + 1e-12*|x| (decimal rounding vs numpy round)",
                "one table row per line; blank/comment lines only before a block, between block name and loop_, after the "
                "labels, between blocks (never inside rows, never on the loop_ line)",
@@ -162,7 +162,7 @@ def compare_frames_to_blocks(frames, specs, blocks):
                     return {"what": "numeric column not read as numbers", "block": bi, "column": c, "dtype": str(col.dtype), "tokens": toks[:4]}
                 exp = np.array([float(x) for x in toks])
                 got = col.to_numpy(dtype=float)
-                ok = np.abs(got - exp) <= 4 * np.spacing(np.abs(exp))
+                ok = np.abs(got - exp) <= 1e-12 * np.abs(exp) + 1e-300
                 if not ok.all():
                     i = int(np.argmin(ok))
                     return {"what": "numeric cell", "block": bi, "column": c, "row": i, "read": float(got[i]), "token": toks[i]}
@@ -236,7 +236,7 @@ def setup(ctx):
     fr = monitors.wrap(ctx, starfileio.Starfile, "read", "star_read", _r_post)
     ctx.declare("roundtrip")
     T = starfileio.Token
-    monitors.trace(ctx, [("Starfile.write", fw, {"stopgap_blankline": "if stopgap:", "comment_written": "for c in comment:"}),
+    monitors.trace(ctx, [("Starfile.write", fw, {"stopgap_blankline": ('file.write("\\n")', 1), "comment_written": 'file.write(f"\\n# {c}")'}),
                          ("Starfile.read", fr, {"block_parsed": "specifiers.append(specifier)"}),
                          ("Token.tokenize", T.tokenize, {"comment_token": "TokenType.COMMENT, line[index + 1 :]",
                                                          "property_token_eol": "TokenType.PROPERTY, line[first:], ",
@@ -328,11 +328,15 @@ def gen_tables(rng, cls, big):
             t = pd.DataFrame({c: np.zeros(0) for c in cols}, columns=cols)
         tables.append(t)
         if stop:
-            names.append("data_stopgap_" + str(rng.choice(["motivelist", "wedgelist", "tomolist"])))
+            names.append("data_stopgap_" + str(rng.choice(["motivelist", "wedgelist", "tomolist", "TomoList", "MOTL_7"])))
         else:
             names.append(str(rng.choice(spec_pool)) if nb > 1 else str(rng.choice(["data_", "data_particles", "data_optics"])))
     number_columns = not (cls == "tables_unnumbered" or rng.random() < 0.2)
-    return tables, names, number_columns
+    comments = None
+    if rng.random() < 0.3:
+        comments = [[str(rng.choice(["version 30001", "created by cryoCAT", "data_fake", "_rlnFake #1", "loop_"]))
+                     for _ in range(int(rng.integers(0, 3)))] for _ in tables]
+    return tables, names, number_columns, comments
 
 
 NUM_FORMS = ["{:d}", "{:+d}", "{:.0f}.", "{:.3f}", "{:.6f}", "{:e}", "{:E}", "{:.2e}", "{:010.4f}", "{:g}", "{!r}"]
@@ -369,7 +373,7 @@ def gen_text(rng, cls):
         lines += filler(allow_none=(b == 0))
         if b > 0 and not lines[-1:] and True:
             lines.append("")
-        name = str(rng.choice(["data_", "data_particles", "data_optics", "data_stopgap_motivelist", "data_x"]))
+        name = str(rng.choice(["data_", "data_particles", "data_optics", "data_stopgap_motivelist", "data_x", "data_stopgap_WedgeList"]))
         lines.append(name + (" " * int(rng.integers(0, 3)) if deco else ""))
         lines += [""] * int(rng.integers(0, 3))
         lines.append("loop_" + (" " if deco and rng.random() < 0.3 else ""))
@@ -433,13 +437,13 @@ def gen_text(rng, cls):
 def gen(ctx, i, cls):
     rng = ctx.rng(i)
     if cls.startswith("tables"):
-        tables, names, numbered = gen_tables(rng, cls, ctx.tier == "thorough")
+        tables, names, numbered, comments = gen_tables(rng, cls, ctx.tier == "thorough")
         kinds = [frame_kinds(t) for t in tables]
-        summ = {"mode": "write+read", "blocks": names, "shapes": [list(t.shape) for t in tables], "number_columns": numbered,
+        summ = {"mode": "write+read", "blocks": names, "shapes": [list(t.shape) for t in tables], "number_columns": numbered, "comments": comments,
                 "kinds": [k[:10] if k else None for k in kinds],
                 "row0": [[str(x)[:24] for x in t.iloc[0].tolist()][:6] if len(t) else [] for t in tables]}
         nt = any(t.shape[0] >= 2 and t.shape[1] >= 2 for t in tables) and (len(tables) > 1 or any("text" in (k or []) or "float" in (k or []) for k in kinds))
-        return {"i": i, "cls": cls, "mode": "tables", "tables": tables, "names": names, "numbered": numbered, "kinds": kinds,
+        return {"i": i, "cls": cls, "mode": "tables", "tables": tables, "names": names, "numbered": numbered, "kinds": kinds, "comments": comments,
                 "summary": summ, "nt": nt}
     text, blocks, flags = gen_text(rng, cls)
     summ = {"mode": "read hand-built text", "blocks": [b["name"] for b in blocks], "shapes": [[len(b["rows"]), len(b["labels"])] for b in blocks],
@@ -460,7 +464,8 @@ def run_case(ctx, case):
         if any(k is None for k in case["kinds"]) or write_in_domain(case["tables"], case["names"]) is None:
             raise RuntimeError("generator produced a table outside the quantifier")
         frames = [t.copy() for t in case["tables"]]
-        ok, _ = ctx.call("Starfile.write", S.write, frames, path, specifiers=list(case["names"]), number_columns=case["numbered"])
+        ok, _ = ctx.call("Starfile.write", S.write, frames, path, specifiers=list(case["names"]), number_columns=case["numbered"],
+                         comments=case["comments"])
         if not ok:
             return
         ok, res = ctx.call("Starfile.read", S.read, path)
